@@ -15,8 +15,8 @@ func init() {
 	Registry["C06"] = c06
 	Metas["C06"] = Meta{Level: "other", NeedCG: true,
 		Technique: "static analysis: ordering (dominance / reachability) of the durable writes on the three commit paths, sibling agreement, descriptor-last and sync-write rules over resolved call sites, effect-set comparison between the live post-commit path and crash recovery",
-		Explain: "Crash points cannot be enumerated statically; decided is the ORDER and AGREEMENT of durable writes that recovery relies on. (R1) pbft path: SaveBlock is never after ApplyBlock, ApplyBlock dominates State.Save which dominates updateToState; in ExecBlock SetBlockAndValidators dominates SaveIntermediate which dominates the success return; in the EVM app's OnCommit state commit < trie-db commit < SaveLastBlock; (R2) the fast-sync executor and the raft FSM perform the same SaveBlock < ApplyBlock < Save sequence on the state they publish; (R3) in BlockStore.SaveBlock no store write follows the height descriptor and both sanity checks precede the first write; (R4) the watermark keys (state, intermediate state, block-store descriptor, app last block) are only ever written with the synchronous variant; (R5) every State field assigned after the application commit on the live path is also restored by the 'crashed between app commit and State.Save' branch of RecoverFromCrash, and that branch loads the intermediate state before overwriting hashes; (R6) RecoverFromCrash runs on every start with a genesis and its error is fatal. (R1 also) the application commit writes its append-only receipt/key-history records after its height watermark, and finalizeCommit skips SaveBlock only on the store's height descriptor. (R5 also) LoadIntermediate hands every field of the saved intermediate state to the parameter of the same role; (R6 also) the fast-sync pool starts at the reconciled store height. NOT decided: behaviour at each crash point, LevelDB/batch atomicity, repeated crashes.",
-		Assume: []string{"goleveldb SetSync is durable on return", "a single Set is atomic"},
+		Explain:   "Crash points cannot be enumerated statically; decided is the ORDER and AGREEMENT of durable writes that recovery relies on. (R1) pbft path: SaveBlock is never after ApplyBlock, ApplyBlock dominates State.Save which dominates updateToState; in ExecBlock SetBlockAndValidators dominates SaveIntermediate which dominates the success return; in the EVM app's OnCommit state commit < trie-db commit < SaveLastBlock; (R2) the fast-sync executor and the raft FSM perform the same SaveBlock < ApplyBlock < Save sequence on the state they publish; (R3) in BlockStore.SaveBlock no store write follows the height descriptor and both sanity checks precede the first write; (R4) the watermark keys (state, intermediate state, block-store descriptor, app last block) are only ever written with the synchronous variant; (R5) every State field assigned after the application commit on the live path is also restored by the 'crashed between app commit and State.Save' branch of RecoverFromCrash, and that branch loads the intermediate state before overwriting hashes; (R6) RecoverFromCrash runs on every start with a genesis and its error is fatal. (R1 also) the application commit writes its append-only receipt/key-history records after its height watermark, and finalizeCommit skips SaveBlock only on the store's height descriptor. (R5 also) LoadIntermediate hands every field of the saved intermediate state to the parameter of the same role; (R6 also) the fast-sync pool starts at the reconciled store height. NOT decided: behaviour at each crash point, LevelDB/batch atomicity, repeated crashes.",
+		Assume:    []string{"goleveldb SetSync is durable on return", "a single Set is atomic"},
 	}
 }
 
@@ -106,7 +106,9 @@ func c06R1(c *Ctx) {
 		sr := firstCall(f, "chain/app/evm.(*EVMApp).SaveReceipts")
 		c.before(rule, "OnCommit:SaveLastBlock≺SaveReceipts", f, sl, sr, true, "the receipt / key-history records are append-only (not idempotent): they are written after the application's height watermark, so a block re-applied after a crash cannot append them twice")
 		if sl != nil {
-			ok := f.HasGuard(sl, func(g string) bool { return strings.HasPrefix(g, "(eth/trie.(*Database).Commit(") && strings.HasSuffix(g, " == nil)") })
+			ok := f.HasGuard(sl, func(g string) bool {
+				return strings.HasPrefix(g, "(eth/trie.(*Database).Commit(") && strings.HasSuffix(g, " == nil)")
+			})
 			c.R.Ob(rule, "OnCommit:SaveLastBlock⊣trie-commit-ok", ok, c.Pos(sl), fname(f), "watermark written although the trie commit failed; "+guardsText(f, sl))
 		}
 	}
@@ -337,26 +339,7 @@ func c06R6(c *Ctx) {
 	rule := c.R.Rule("R6", "startup reconciliation is reached: ConnectApp calls RecoverFromCrash with the application's Info() on every path with a genesis, and a returned error is fatal", 2)
 	// the fast-sync pool starts at the reconciled store height: the height read for NewBlockPool follows the
 	// "store one ahead of state" adjustment
-	if g := c.Anchor(rule, "gemmill/blockchain.NewBlockchainReactor"); g != nil {
-		var hack *ssa.Store
-		for _, st := range g.FieldStores("gemmill/blockchain.BlockStore", "height") {
-			hack = st
-		}
-		for _, ci := range g.CallsTo(cfgx.Named("gemmill/blockchain.NewBlockPool")) {
-			arg := ci.Common().Args[0]
-			ok := false
-			detail := "start height is " + shorten(exprOf(arg))
-			if bo, isBo := arg.(*ssa.BinOp); isBo && exprOf(bo.Y) == "1" {
-				if hc, isCall := bo.X.(*ssa.Call); isCall && cfgxCallee(hc) == "gemmill/blockchain.(*BlockStore).Height" {
-					ok = hack == nil || !g.Reaches(hc, hack)
-					if !ok {
-						detail = "store.Height() is read before the adjustment `store.height -= 1`"
-					}
-				}
-			}
-			c.R.Ob(rule, "NewBlockchainReactor:pool-starts-at-reconciled-height+1", ok, c.Pos(ci), fname(g), "after a crash between SaveBlock and State.Save the store is one ahead and is stepped back so that block is re-applied; the pool must start from the adjusted height: "+detail)
-		}
-	}
+	poolStartObligations(c, rule)
 	// RecoverFromCrash compares the application's height with blockstore.Height(): that value must be the
 	// persisted descriptor, i.e. nobody but the store's own constructor / SaveBlock / revert writes BlockStore.height
 	{
@@ -406,7 +389,6 @@ func c06R6(c *Ctx) {
 	c.R.Ob(rule, "ConnectApp:recover-args", strings.Contains(callArg(rc, 1), ".Info()") && strings.Contains(callArg(rc, 2), ".Info()"), c.Pos(rc), fname(f), "RecoverFromCrash must be given the application's own last hash/height")
 }
 
-
 // loadIntermediateRoles (part of C06-R5; also C16-R10): LoadIntermediate hands each field of the saved
 // intermediate state to the parameter of the same role.
 func loadIntermediateRoles(c *Ctx, rule string) {
@@ -441,6 +423,31 @@ func loadIntermediateRoles(c *Ctx, rule string) {
 					"the recovered state's "+fld+" must be the intermediate state's "+fld+" (a swapped pair leaves the node with the previous height's validator set as current: wrong proposer, wrong ValidatorsHash after every recovery); got "+shorten(strings.Replace(got, s2, "s2", -1)))
 			}
 			c.R.Ob(rule, "LoadIntermediate:roles-resolved", n >= 6, c.Pos(ci), fname(f), fmt.Sprintf("%d parameters mapped to State fields", n))
+		}
+	}
+}
+
+// poolStartObligations is used by C06-R6 and C13-R10: the fast-sync pool starts right above the
+// reconciled store height.
+func poolStartObligations(c *Ctx, rule string) {
+	if g := c.Anchor(rule, "gemmill/blockchain.NewBlockchainReactor"); g != nil {
+		var hack *ssa.Store
+		for _, st := range g.FieldStores("gemmill/blockchain.BlockStore", "height") {
+			hack = st
+		}
+		for _, ci := range g.CallsTo(cfgx.Named("gemmill/blockchain.NewBlockPool")) {
+			arg := ci.Common().Args[0]
+			ok := false
+			detail := "start height is " + shorten(exprOf(arg))
+			if bo, isBo := arg.(*ssa.BinOp); isBo && exprOf(bo.Y) == "1" {
+				if hc, isCall := bo.X.(*ssa.Call); isCall && cfgxCallee(hc) == "gemmill/blockchain.(*BlockStore).Height" {
+					ok = hack == nil || !g.Reaches(hc, hack)
+					if !ok {
+						detail = "store.Height() is read before the adjustment `store.height -= 1`"
+					}
+				}
+			}
+			c.R.Ob(rule, "NewBlockchainReactor:pool-starts-at-reconciled-height+1", ok, c.Pos(ci), fname(g), "after a crash between SaveBlock and State.Save the store is one ahead and is stepped back so that block is re-applied; the pool must start from the adjusted height: "+detail)
 		}
 	}
 }
